@@ -10,6 +10,7 @@ import (
 	"io"
 	"os"
 	"os/signal"
+	"path/filepath"
 	"regexp"
 	"runtime"
 	"runtime/debug"
@@ -18,6 +19,7 @@ import (
 	"time"
 
 	"github.com/pdfcpu/pdfcpu/pkg/api"
+	"github.com/pdfcpu/pdfcpu/pkg/font"
 	"github.com/pdfcpu/pdfcpu/pkg/pdfcpu"
 	"github.com/pdfcpu/pdfcpu/pkg/pdfcpu/model"
 )
@@ -108,6 +110,29 @@ func runOp(op string, data []byte, path string) (class, detail string) {
 		_, err = api.ValidateSignatures(path, true, childConf(true))
 	case "sigfile":
 		_, err = api.ValidateSignaturesFile(path, true, true, childConf(true))
+	case "font":
+		dir, e := os.MkdirTemp("", "c08-font-")
+		if e != nil {
+			return "err", e.Error()
+		}
+		defer os.RemoveAll(dir)
+		if bytes.HasPrefix(data, []byte("ttcf")) {
+			fn := filepath.Join(dir, "in.ttc")
+			os.WriteFile(fn, data, 0o644)
+			_, err = font.InstallTrueTypeCollection(filepath.Join(dir, "out"), fn)
+			break
+		}
+		err = font.InstallFontFromBytesQuiet(dir, "x.ttf", data)
+		e2 := font.InstallFontFromBytes(dir, "y.ttf", data)
+		fn := filepath.Join(dir, "z.ttf")
+		os.WriteFile(fn, data, 0o644)
+		_, e3 := font.InstallTrueTypeFont(filepath.Join(dir, "out"), fn)
+		if err == nil {
+			err = e2
+		}
+		if err == nil {
+			err = e3
+		}
 	case "fonts":
 		err = api.ExtractFonts(rs(), nil, func(pdfcpu.Font) error { return nil }, childConf(true))
 	default:
